@@ -20,7 +20,8 @@ Map order inside one resolution (the `order` parameter of `Resolver.nameMap`) is
 the provider choice in `Proofs/C01.lean`: `C01.comparePackages_swo` (the repaired comparator is a
 strict weak order on all packages), `C01.comparePackages_eq_same_name`, `C01.minFunc_perm_invariant`,
 `C01.nameMap_order_irrelevant`, `C01.bestPackage_order_irrelevant`,
-`C01.resolvePackage_order_irrelevant`; `C01.comparePackages_pinned_not_antisymm` is the F08b witness
+`C01.resolvePackage_order_irrelevant`, and for whole resolutions `C01.resolve_order_irrelevant`;
+`C01.comparePackages_pinned_not_antisymm` / `C01.resolve_order_dependent_pinned` are the F08b witnesses
 for the pinned comparator.
 -/
 import Apko.Model.Memo
